@@ -259,10 +259,7 @@ impl TryFrom<usize> for Val {
     fn try_from(num: usize) -> std::result::Result<Self, Self::Error> {
         match i16::try_from(num) {
             Ok(len) => Ok(Val::Integer(len)),
-            Err(_) => {
-                debug_assert!(false, "LEN VAL TOO BIG");
-                Err(error!(Overflow))
-            }
+            Err(_) => Err(error!(Overflow)),
         }
     }
 }
